@@ -134,6 +134,23 @@ def EmitOk (s : State) (A : AState) (op : Op) : Prop := emitOkB s A op = true
 instance (s : State) (A : AState) (op : Op) : Decidable (EmitOk s A op) :=
   inferInstanceAs (Decidable (_ = true))
 
+/-- which conjuncts of `EmitOk` fail, as short signatures (for the monitor lines of a driver); `[]` iff `EmitOk`
+(`emitFails_nil_iff`) -/
+def emitFails (s : State) (A : AState) : Op → List String
+  | .started t inst ws _ =>
+    (if notLate s t then [] else ["late-start"]) ++
+    (if instFresh A t inst then [] else ["instance-not-fresh"]) ++
+    (if ws.all (fun w => decide (w ≤ A.maxWorker)) then [] else ["worker-never-connected"])
+  | .failed t cons => if consumersClosed A t cons then [] else ["consumers-not-closed"]
+  | .workerNew w => if decide (A.maxWorker < w) then [] else ["worker-id-not-fresh"]
+  | .workerLost w _ _ => if A.workers.contains w then [] else ["worker-not-connected"]
+  | .submit _ _ d => if arrayShapeOk d then [] else ["array-shape"]
+  | _ => []
+
+/-- the meaning of the journal after the records of one operation (what a driver keeps next to the M4 state) -/
+def advance (s : State) (A : AState) (op : Op) (evs : List Ev) : AState :=
+  (recordsOf s op evs).foldl meaningStep A
+
 /-- `EmitOk` for every operation of a run from `(s, A)` (up to the first panic), `A` following the journal -/
 def emitOkFrom (s : State) (A : AState) : List Op → Bool
   | [] => true
@@ -149,5 +166,54 @@ def EmitOkRun (uid : String) (ops : List Op) : Prop :=
 
 instance (uid : String) (ops : List Op) : Decidable (EmitOkRun uid ops) :=
   inferInstanceAs (Decidable (_ = true))
+
+/-! ### records the job layer does not write, interleaved with its own
+
+A real journal also contains records of other emitters: `WorkerOverview` (if persisted), the allocation-queue records
+of the autoalloc service, `ServerStop`. They change neither the jobs, nor the connected workers, nor the worker-id
+high-water mark of `meaning`. (`ServerStart` is not one of them: a restart rebuilds the job layer from `restore`.) -/
+
+/-- records of other emitters -/
+def isOther : Record → Bool
+  | .serverStop | .workerOverview _ | .queueCreated _ | .queueRemoved _
+  | .allocQueued _ _ | .allocStarted _ _ | .allocFinished _ _ => true
+  | _ => false
+
+/-- one element of an interleaved history: an operation of the job layer, or a record written by another emitter -/
+inductive Item where
+  | op (o : Op)
+  | other (r : Record)
+
+def journalFromI (s : State) : List Item → List Record
+  | [] => []
+  | .other r :: is => r :: journalFromI s is
+  | .op o :: is =>
+    match step s o with
+    | .ok (s', evs) => recordsOf s o evs ++ journalFromI s' is
+    | .error _ => []
+
+def journalOfI (uid : String) (items : List Item) : List Record := .serverStart uid :: journalFromI {} items
+
+/-- `EmitOk` for the operations; the other records are of the kinds above and allowed where they are written
+(`recordOk`: a created queue id is new — a fact about the autoalloc service, C18) -/
+def okFromI (s : State) (A : AState) : List Item → Bool
+  | [] => true
+  | .other r :: is => isOther r && recordOk A r && okFromI s (meaningStep A r) is
+  | .op o :: is =>
+    emitOkB s A o &&
+      match step s o with
+      | .ok (s', evs) => okFromI s' ((recordsOf s o evs).foldl meaningStep A) is
+      | .error _ => true
+
+def OkRunI (uid : String) (items : List Item) : Prop :=
+  okFromI {} (meaningStep {} (.serverStart uid)) items = true
+
+instance (uid : String) (items : List Item) : Decidable (OkRunI uid items) :=
+  inferInstanceAs (Decidable (_ = true))
+
+/-- forget the allocation id of `WorkerConnected` (M4 does not know it; `recordOk` and `meaning` do not read it) -/
+def eraseAlloc : Record → Record
+  | .workerConnected w _ => .workerConnected w none
+  | r => r
 
 end HqModel.Emit
